@@ -3,11 +3,77 @@
 ENGINES = {
     'pwdsim': {'sources': ['pwdsim.c']},
     'streamsim': {'sources': ['streamsim.c']},
+    'faultcall': {'sources': ['faultcall.c', 'fc_belt.c', 'fc_misc.c', 'fc_bign.c', 'fc_proto.c'], 'common_sources': ['b2util.c']},
 }
 
 REAL_ALL = ['all of /repo/src compiled from the current working tree with -DBEE2_VERIF']
 
 CHECKS = {
+    'C07': {
+        'level': 'exploration',
+        'legs': [
+            {'engine': 'faultcall', 'config': 'asan', 'variant': 'base', 'runs': [6000, 400000]},
+            {'engine': 'faultcall', 'config': 'asan32', 'variant': 'base', 'runs': [3000, 200000]},
+            {'engine': 'streamsim', 'config': 'asan', 'runs': [100000, 3000000]},
+            {'engine': 'streamsim', 'config': 'asan32', 'runs': [50000, 1500000]},
+        ],
+        'sigs_per_leg': True,
+        'rule': ('a case is one fault-free simulated call (faultcall: one of the high-level functions with valid arguments over its documented '
+                 'size range, every caller buffer and every library blob at exactly its documented size on the simulated heap, executed twice '
+                 'under different seeded heap garbage) or one simulated stream (streamsim: states at exactly _keep() octets); '
+                 'distinct = distinct (function, argument-size variant, allocation trace) resp. (bundle, fragmentation shape) signatures; '
+                 'trivial cases (none) are not produced'),
+        'real': REAL_ALL,
+        'stub': ['libc malloc/realloc/free (exact-size arena with red zones, seeded garbage, blobs un-rounded via H-blob)'],
+        'assumptions': [
+            'partial by construction (DESIGN.md C07): only what the environment half can decide - exact sizes, red zones, garbage differential, ASSERTs on',
+            'math-layer functions with their own stack argument are reached only through high-level callers',
+            'UBSan alignment/integer checks are off (bee2 does unaligned word loads by design)',
+        ],
+        'mandatory_probes': {'any': ['calls', 'fault.state_migrated']},
+    },
+    'C09': {
+        'level': 'fault_enumeration',
+        'legs': [
+            {'engine': 'faultcall', 'config': 'asan', 'variant': 'alloc', 'runs': [2500, 150000]},
+            {'engine': 'faultcall', 'config': 'asan', 'variant': 'badarg', 'runs': [2500, 100000]},
+            {'engine': 'faultcall', 'config': 'asan32', 'variant': 'alloc', 'runs': [0, 50000]},
+            {'engine': 'faultcall', 'config': 'asan32', 'variant': 'badarg', 'runs': [0, 30000]},
+        ],
+        'sigs_per_leg': True,
+        'rule': ('alloc leg: a case is one generated valid call of one high-level function; its N allocations are measured in a fault-free run, then the '
+                 'identical call is re-run N times with allocation #k failing and N-1 times with #k and all later ones failing (complete enumeration '
+                 'of single allocation faults per call); distinct = distinct (function, N, k, single/persistent) tuples. badarg leg: every invalid '
+                 'variant the descriptor derives from the header\'s \\expect lines (scalar swept across and beyond its domain, corrupted '
+                 'tokens/tags for authenticated unwraps) plus random pairs; distinct = distinct (function, variant[, second variant])'),
+        'real': REAL_ALL,
+        'stub': ['libc malloc/realloc/free (simulated heap with failure injection)', 'caller generator (seeded tape, all-zero tape for ERR_BAD_RNG/ANG exits)'],
+        'assumptions': [
+            'expected error classes are taken from the \\expect{ERR_...} lines of the headers; where a header names no class (btok CVC, bpki unwrap) any error code is accepted',
+            'when two arguments are invalid, either named class is accepted (headers do not fix precedence)',
+            'no-release check: an 8-octet window of the protected plaintext/key must not be in the destination after a failed authenticated unwrap (accidental match 2^-64)',
+            'protocol drivers (bake Run*, BAUTH steps) are enumerated by the protosim legs of C04, not here',
+        ],
+        'mandatory_probes': {'any': ['fault.alloc_fail_single', 'fault.alloc_fail_persistent', 'fault.bad_argument', 'probe.alloc_fault_after_first_alloc', 'probe.auth_failure_checked']},
+    },
+    'C15': {
+        'level': 'exploration',
+        'legs': [
+            {'engine': 'faultcall', 'config': 'asan', 'variant': 'wipe', 'runs': [4000, 300000]},
+        ],
+        'rule': ('a case is one secret-taking high-level call executed twice from an identical simulator state (same public arguments, arena addresses, '
+                 'memWipe counter) with two independent secrets, at a seeded exit: success, the error exit behind failed allocation #k, or a '
+                 'descriptor error variant (bad key, corrupted token, dead generator); every block handed to free / left by a moving realloc / still '
+                 'live at return is snapshotted; distinct = distinct (function, return code, allocation trace) exits reached'),
+        'real': REAL_ALL,
+        'stub': ['libc malloc/realloc/free (arena; realloc always moves)', 'caller generator (seeded tape drawn from the secret stream)'],
+        'assumptions': [
+            'a released region that differs between the two secrets and is byte-identical to public output of the same run is excused',
+            'pairs whose allocation traces or return codes differ are not compared (counted as incomparable) and fall back to the raw-secret window scan',
+            'memWipe counter normalised through 1-octet public memWipe calls; the real memWipe stays under test',
+        ],
+        'mandatory_probes': {'any': ['compared_pairs', 'probe.alloc_fault_after_secret_loaded', 'fault.error_variant']},
+    },
     'C10': {
         'level': 'exploration',
         'legs': [
@@ -62,14 +128,11 @@ NOT_APPLICABLE = {
     'C04': 'not yet built in this tree (protosim engine pending)',
     'C05': 'arithmetic layer: ' + NA_PURE,
     'C06': 'EC group law: ' + NA_PURE,
-    'C07': 'not yet built in this tree (rider on faultcall/streamsim/protosim baselines pending)',
     'C08': 'decoder totality over all byte strings is input enumeration (fuzzing/BMC territory), nothing to schedule or fault',
-    'C09': 'not yet built in this tree (faultcall engine pending)',
     'C11': 'buffer placement is an argument of a pure call; nothing for a scheduler or fault injector to decide',
     'C12': 'membership decisions of pure validators (priRMTest draws bases from a clock, but the property quantifies over numbers)',
     'C13': 'belsShare/belsRecover are single-shot pure functions; subset and order are arguments',
     'C14': 'control-flow independence of machine code is invisible to a simulator that observes API effects; needs binary-level analysis',
-    'C15': 'not yet built in this tree (faultcall free monitor pending)',
     'C16': 'sign/verify/DH round trips: ' + NA_PURE,
     'C17': 'not yet built in this tree (protosim engine pending)',
     'C18': 'not yet built in this tree (mtsim engine pending)',
@@ -77,6 +140,30 @@ NOT_APPLICABLE = {
 }
 
 MANIFEST_TEXT = {
+    'C07': {
+        'text': ('Rider check, partial by construction: fault-free simulated calls of ~80 high-level functions and 18 streaming bundles on the simulated heap with '
+                 'exact-size buffers, states and blobs (H-blob), ASan + memory-related UBSan, library ASSERTs on, in the 64-bit and 32-bit word '
+                 'configuration, each call repeated under different seeded heap garbage with identical results required.'),
+        'design_ref': 'DESIGN.md §3 C07',
+        'note': 'Decides only the environment half of C07 (where memory comes from, its exact size, its prior content); it is not an operand sweep of every public entry point.',
+        'technique': 'deterministic simulation: exact-size simulated heap + seeded garbage differential under sanitizers',
+    },
+    'C09': {
+        'text': ('Fault enumeration: for every explored call of ~80 err_t-returning high-level functions each of its N allocations is failed in turn '
+                 '(singly and persistently) on the simulated heap; oracle: error code, empty live set, no crash. Bad-argument variants derived from the '
+                 'headers\' \\expect lines with the named error class as oracle, and no-release-on-authentication-failure checks for unwrap functions.'),
+        'design_ref': 'DESIGN.md §3 C09',
+        'note': 'Complete for single allocation faults of the calls explored; calls and argument values themselves are sampled. Descriptor table (sim/faultcall/fc_*.c) is the trusted transcription of the headers.',
+        'technique': 'deterministic simulation: per-call allocation-fault enumeration + header-derived bad-argument workload',
+    },
+    'C15': {
+        'text': ('Secret-differential free monitor on the simulated heap: each secret-taking call runs twice with different secrets from an identical '
+                 'simulator state; every released block is snapshotted at the instant of release and the two snapshots must agree except where '
+                 'equal to public output. Error exits are reached by allocation-fault injection and error variants.'),
+        'design_ref': 'DESIGN.md §3 C15',
+        'note': 'Non-interference oracle needs no knowledge of state layouts; it cannot see secrets left on the C stack or in registers.',
+        'technique': 'deterministic simulation: free-time snapshots + two-secret differential with fault-reached exits',
+    },
     'C10': {
         'text': ('Seeded search over stream histories: the simulator plays the data source and the hosting process of 18 Start/Step/Get bundles '
                  '(belt ECB/CBC/CFB/CTR/BDE/SDE/MAC/Hash/HMAC/DWP/CHE/KRP, bash hash and automaton, brng CTR/HMAC, botp HOTP/TOTP), fragments the data, '
